@@ -50,6 +50,12 @@ structure Rec where
   subTime : Nat
   deriving DecidableEq, Repr, Inhabited
 
+/-- byte limits of the submitted strings (`ValidateBasic` and the message servers; tied to the source by
+`c07_limits_from_source` / `c09_limits_from_source`) -/
+def maxHashLen : Nat := 66
+def maxMonikerLen : Nat := 64
+def maxNameLen : Nat := 128
+
 /-- compile-time default used when a registration has no limit entry (`types.DefaultStorageLimit`) -/
 def constDefaultStorageLimit : Nat := 50000
 
@@ -106,13 +112,13 @@ def vbRegister (s : RegState) (moniker name genesis : String) (owner : AddrTok) 
   match s.kind with
   | .wrk => do
     require (moniker.utf8ByteSize ≠ 0) (s.mErr 2)
-    require (name.utf8ByteSize ≤ 128) (s.mErr 3)
-    require (moniker.utf8ByteSize ≤ 64) (s.mErr 3)
-    require (genesis.utf8ByteSize ≤ 66) (s.mErr 3)
+    require (name.utf8ByteSize ≤ maxNameLen) (s.mErr 3)
+    require (moniker.utf8ByteSize ≤ maxMonikerLen) (s.mErr 3)
+    require (genesis.utf8ByteSize ≤ maxHashLen) (s.mErr 3)
   | .bcn => do
     require (moniker.utf8ByteSize ≠ 0 && name.utf8ByteSize ≠ 0) (s.mErr 2)
-    require (name.utf8ByteSize ≤ 128) (s.mErr 3)
-    require (moniker.utf8ByteSize ≤ 64) (s.mErr 3)
+    require (name.utf8ByteSize ≤ maxNameLen) (s.mErr 3)
+    require (moniker.utf8ByteSize ≤ maxMonikerLen) (s.mErr 3)
 
 /-- the state after a successful registration of `id` -/
 def registered (s : RegState) (nowSec : Nat) (moniker name genesis type : String) (ownerAddr : Addr) : RegState :=
@@ -131,8 +137,8 @@ def registered (s : RegState) (nowSec : Nat) (moniker name genesis type : String
 def register (s : RegState) (nowSec : Nat) (moniker name genesis type : String) (owner : AddrTok) :
     M (RegState × Nat) := do
   let ownerAddr ← owner.decodeM
-  require (name.utf8ByteSize ≤ 128) (s.mErr 3)
-  require (moniker.utf8ByteSize ≤ 64) (s.mErr 3)
+  require (name.utf8ByteSize ≤ maxNameLen) (s.mErr 3)
+  require (moniker.utf8ByteSize ≤ maxMonikerLen) (s.mErr 3)
   require (moniker.utf8ByteSize ≠ 0) (s.mErr 2)
   pure (s.registered nowSec moniker name genesis type ownerAddr, s.nextId)
 
@@ -144,13 +150,13 @@ def vbRecord (s : RegState) (id key : Nat) (r : Rec) (owner : AddrTok) : M Unit 
     require (id ≠ 0) (s.mErr 5)
     require (r.h0.utf8ByteSize ≠ 0) (s.mErr 2)
     require (key ≠ 0) (s.mErr 2)
-    require (r.h0.utf8ByteSize ≤ 66 && r.h1.utf8ByteSize ≤ 66 && r.h2.utf8ByteSize ≤ 66 &&
-             r.h3.utf8ByteSize ≤ 66 && r.h4.utf8ByteSize ≤ 66) (s.mErr 3)
+    require (r.h0.utf8ByteSize ≤ maxHashLen && r.h1.utf8ByteSize ≤ maxHashLen && r.h2.utf8ByteSize ≤ maxHashLen &&
+             r.h3.utf8ByteSize ≤ maxHashLen && r.h4.utf8ByteSize ≤ maxHashLen) (s.mErr 3)
   | .bcn => do
     require (id ≠ 0) (s.mErr 2)
     require (r.h0.utf8ByteSize ≠ 0) (s.mErr 2)
     require (r.subTime ≠ 0) (s.mErr 2)
-    require (r.h0.utf8ByteSize ≤ 66) (s.mErr 3)
+    require (r.h0.utf8ByteSize ≤ maxHashLen) (s.mErr 3)
 
 /-- `RecordNewWrkchainHashes` (after the handler's checks) -/
 def recordWrk (s : RegState) (nowSec : Nat) (m : RegMeta) (height : Nat) (r : Rec) : RegState :=
@@ -201,13 +207,13 @@ def record (s : RegState) (nowSec : Nat) (wall : Nat) (id key : Nat) (r : Rec) (
   match s.kind with
   | .wrk => do
     require (key ≠ 0) (s.mErr 5)
-    require (r.h0.utf8ByteSize ≤ 66 && r.h1.utf8ByteSize ≤ 66 && r.h2.utf8ByteSize ≤ 66 &&
-             r.h3.utf8ByteSize ≤ 66 && r.h4.utf8ByteSize ≤ 66) (s.mErr 3)
+    require (r.h0.utf8ByteSize ≤ maxHashLen && r.h1.utf8ByteSize ≤ maxHashLen && r.h2.utf8ByteSize ≤ maxHashLen &&
+             r.h3.utf8ByteSize ≤ maxHashLen && r.h4.utf8ByteSize ≤ maxHashLen) (s.mErr 3)
     let m ← s.ownedBy id ownerAddr
     require (key > m.last) (s.mErr 7)
     pure (s.recordWrk nowSec m key r, key)
   | .bcn => do
-    require (r.h0.utf8ByteSize ≤ 66) (s.mErr 3)
+    require (r.h0.utf8ByteSize ≤ maxHashLen) (s.mErr 3)
     let m ← s.ownedBy id ownerAddr
     pure (s.recordBcn m r.h0 (if r.subTime = 0 then wall else r.subTime))
 
